@@ -664,6 +664,11 @@ class Sym:
             a = scalarize(a)          # a coefficient accessor (t(), x(), angle()) is a scalar
         if isinstance(b, ElemView):
             b = scalarize(b)
+        if op in ("+", "-", "*", "/"):
+            if isinstance(a, bool):
+                a = Aff(1 if a else 0)        # a decided comparison used as a number
+            if isinstance(b, bool):
+                b = Aff(1 if b else 0)
         ma, mb = as_mat(a), as_mat(b)
         if ma is None and mb is None:
             if (isinstance(a, Poly) or isinstance(b, Poly)) and isinstance(a, (Aff, Poly)) and isinstance(b, (Aff, Poly)):
